@@ -1,3 +1,4 @@
+import NimaVerif.Lemmas.NameAgree
 import NimaVerif.Lemmas.ScopedSingle
 /-!
 # C09 — scope selectors address exactly the intended let layer
@@ -26,6 +27,8 @@ Hypotheses and why they are satisfiable (`ex3` below satisfies all of them, for 
   parsed document (objects are distinct, `next` is above every identity in use).
 -/
 namespace Nima.C09
+-- name tokens are compared by spelling in this file (see `NameCmp` in Model/Edit.lean)
+attribute [local instance] NameCmp.spelled
 
 open Node
 
@@ -438,5 +441,157 @@ example :
       { target := ex3.target, tBefore := [5], next := 7 }).2 =
       [{ scope := [.bind 8 "n".toList false (.atom "1".toList) [] []], order := [],
          bodyBefore := [5], bodyAfter := [], afterLet := none }] := by decide
+
+/-! ## For the repaired code (`NameCmp.model`, i.e. lookups through `_same_attr_name`)
+
+Everything above is stated for the name comparison by spelling (`NameCmp.spelled`, declared at the head
+of this file). `setValue_model_eq_spelled` / `removeValue_model_eq_spelled` (Lemmas/NameAgree.lean) make
+it a statement about the model of the repaired code under the decidable side condition
+`NameAgree.noSpellingClash d p`: among the name tokens of the document and the keys of the path no two are
+different spellings of one Nix name. The single-operation theorems restated that way (hypotheses about
+lookups keep the comparison by spelling, which is the code's on such inputs): -/
+
+theorem repaired_set_is_spelled (p : Text) (v : ValueArg) (d : Doc) (hns : NameAgree.noSpellingClash d p) :
+    @setValue NameCmp.model p v d = setValue p v d := NameAgree.setValue_model_eq_spelled p v d hns
+
+theorem repaired_rm_is_spelled (p : Text) (d : Doc) (hns : NameAgree.noSpellingClash d p) :
+    @removeValue NameCmp.model p d = removeValue p d := NameAgree.removeValue_model_eq_spelled p d hns
+
+theorem scoped_set_existing_layer_repaired (d : Doc) (k : Nat) (name : Text) (v : Node)
+    (hn : d.noTarget = none) (hk : 1 ≤ k) (hne : name ≠ []) (hh : name.head? ≠ some '@')
+    (hkn : k ≤ (collectScopeLayers d).length)
+    (hns : NameAgree.noSpellingClash d (atSigns k ++ name)) :
+    ∃ l us, pyNeg (collectScopeLayers d) k = some l ∧
+      (∀ u ∈ us, u.Allowed true (fun _ => True) (l.fpSet d.next)) ∧
+      (setValueInAttrset (layerAsSet d.next l) false name v (scratchDoc d l)).2 =
+        applyAll us (scratchDoc d l) ∧
+      (@setValue NameCmp.model (atSigns k ++ name) (.one v) d).1 =
+        (setValueInAttrset (layerAsSet d.next l) false name v (scratchDoc d l)).1 ∧
+      ((@setValue NameCmp.model (atSigns k ++ name) (.one v) d).1 = .ok () →
+        let d' := (@setValue NameCmp.model (atSigns k ++ name) (.one v) d).2
+        let S' := applyAllNode us (layerAsSet d.next l)
+        collectScopeLayers d' =
+          listSet ((collectScopeLayers d).map (applyAllLayer us)) ((collectScopeLayers d).length - k)
+            { applyAllLayer us l with scope := S'.setValues, order := S'.setOrder } ∧
+        d'.target = applyAllNode us d.target ∧ d'.noTarget = d.noTarget ∧ d'.tBefore = d.tBefore ∧
+        d'.tAfter = d.tAfter ∧ d'.trailing = d.trailing ∧ d'.scratch = none) := by
+  simp only [NameAgree.setValue_model_eq_spelled (atSigns k ++ name) _ d hns, NameAgree.removeValue_model_eq_spelled (atSigns k ++ name) d hns] at *
+  exact scoped_set_existing_layer d k name v hn hk hne hh hkn
+
+theorem scoped_set_frame_partial_repaired (d : Doc) (k : Nat) (name : Text) (v : Node)
+    (hn : d.noTarget = none) (hk : 1 ≤ k) (hne : name ≠ []) (hh : name.head? ≠ some '@')
+    (hkn : k ≤ (collectScopeLayers d).length) {l : Layer}
+    (hl : (collectScopeLayers d)[(collectScopeLayers d).length - k]? = some l)
+    (hplain : l.plain = true)
+    (hsep : layerSeparated d ((collectScopeLayers d).length - k) = true)
+    (hok : (@setValue NameCmp.model (atSigns k ++ name) (.one v) d).1 = .ok ())
+    (hns : NameAgree.noSpellingClash d (atSigns k ++ name)) :
+    let d' := (@setValue NameCmp.model (atSigns k ++ name) (.one v) d).2
+    (∀ j, j ≠ (collectScopeLayers d).length - k →
+      (collectScopeLayers d')[j]? = (collectScopeLayers d)[j]?) ∧
+    (collectScopeLayers d').length = (collectScopeLayers d).length ∧
+    (∃ l', (collectScopeLayers d')[(collectScopeLayers d).length - k]? = some l' ∧
+      l'.bodyBefore = l.bodyBefore ∧ l'.bodyAfter = l.bodyAfter ∧ l'.afterLet = l.afterLet ∧
+      l'.scope.length ≥ l.scope.length) ∧
+    d'.target = d.target ∧ d'.tBefore = d.tBefore ∧ d'.tAfter = d.tAfter ∧
+    d'.trailing = d.trailing := by
+  simp only [NameAgree.setValue_model_eq_spelled (atSigns k ++ name) _ d hns, NameAgree.removeValue_model_eq_spelled (atSigns k ++ name) d hns] at *
+  exact scoped_set_frame_partial d k name v hn hk hne hh hkn hl hplain hsep hok
+
+theorem scoped_set_binds_in_layer_repaired (d : Doc) (k : Nat) (name seg : Text) (v : Node)
+    (hn : d.noTarget = none) (hk : 1 ≤ k) (hne : name ≠ []) (hh : name.head? ≠ some '@')
+    (hkn : k ≤ (collectScopeLayers d).length) {l : Layer}
+    (hl : (collectScopeLayers d)[(collectScopeLayers d).length - k]? = some l)
+    (hfmt : formatNPath currentAnchor name = .ok [seg]) (hplain : l.plain = true)
+    (hok : (@setValue NameCmp.model (atSigns k ++ name) (.one v) d).1 = .ok ())
+    (hns : NameAgree.noSpellingClash d (atSigns k ++ name)) :
+    ∃ l' b, (collectScopeLayers (@setValue NameCmp.model (atSigns k ++ name) (.one v) d).2)[
+        (collectScopeLayers d).length - k]? = some l' ∧
+      findBinding l'.scope seg = some b ∧ b.bindValue? = some v ∧
+      keysOf l'.scope =
+        if (findBinding l.scope seg).isSome then keysOf l.scope else keysOf l.scope ++ [seg] := by
+  simp only [NameAgree.setValue_model_eq_spelled (atSigns k ++ name) _ d hns, NameAgree.removeValue_model_eq_spelled (atSigns k ++ name) d hns] at *
+  exact scoped_set_binds_in_layer d k name seg v hn hk hne hh hkn hl hfmt hplain hok
+
+theorem scoped_missing_layer_set_repaired (d : Doc) (k : Nat) (name : Text) (v : Node)
+    (hn : d.noTarget = none) (hk : 1 ≤ k) (hne : name ≠ []) (hh : name.head? ≠ some '@')
+    (hkn : (collectScopeLayers d).length < k)
+    (hnot : ¬ ((collectScopeLayers d).length = 0 ∧ k = 1))
+    (hns : NameAgree.noSpellingClash d (atSigns k ++ name)) :
+    @setValue NameCmp.model (atSigns k ++ name) (.one v) d = (.error .value, d) := by
+  simp only [NameAgree.setValue_model_eq_spelled (atSigns k ++ name) _ d hns, NameAgree.removeValue_model_eq_spelled (atSigns k ++ name) d hns] at *
+  exact scoped_missing_layer_set d k name v hn hk hne hh hkn hnot
+
+theorem scoped_missing_layer_rm_repaired (d : Doc) (k : Nat) (name : Text) (hn : d.noTarget = none)
+    (hk : 1 ≤ k) (hne : name ≠ []) (hh : name.head? ≠ some '@')
+    (hkn : (collectScopeLayers d).length < k)
+    (hns : NameAgree.noSpellingClash d (atSigns k ++ name)) :
+    @removeValue NameCmp.model (atSigns k ++ name) d = (.error .value, d) := by
+  simp only [NameAgree.setValue_model_eq_spelled (atSigns k ++ name) _ d hns, NameAgree.removeValue_model_eq_spelled (atSigns k ++ name) d hns] at *
+  exact scoped_missing_layer_rm d k name hn hk hne hh hkn
+
+theorem scoped_rm_layer_repaired (d : Doc) (k : Nat) (name : Text) (hn : d.noTarget = none)
+    (hk : 1 ≤ k) (hne : name ≠ []) (hh : name.head? ≠ some '@')
+    (hkn : k ≤ (collectScopeLayers d).length)
+    (hns : NameAgree.noSpellingClash d (atSigns k ++ name)) :
+    ∃ l us, pyNeg (collectScopeLayers d) k = some l ∧
+      (∀ u ∈ us, u.Allowed false l.fpBind (l.fpSet d.next)) ∧
+      (removeValueInAttrset (layerAsSet d.next l) name (scratchDoc d l)).2 =
+        applyAll us (scratchDoc d l) ∧
+      (@removeValue NameCmp.model (atSigns k ++ name) d).1 =
+        (removeValueInAttrset (layerAsSet d.next l) name (scratchDoc d l)).1 ∧
+      ((@removeValue NameCmp.model (atSigns k ++ name) d).1 = .ok () →
+        let d' := (@removeValue NameCmp.model (atSigns k ++ name) d).2
+        let S' := applyAllNode us (layerAsSet d.next l)
+        let L' := (collectScopeLayers d).map (applyAllLayer us)
+        let idx := (collectScopeLayers d).length - k
+        (S'.setValues = [] → collectScopeLayers d' = L'.eraseIdx idx ∧
+          ((collectScopeLayers d).length ≠ 1 → d'.tBefore = d.tBefore ∧ d'.tAfter = d.tAfter) ∧
+          ((collectScopeLayers d).length = 1 →
+            d'.tBefore = (if l.bodyBefore.isEmpty then d.tBefore else l.bodyBefore) ∧
+            d'.tAfter = l.bodyAfter ++ d.tAfter.filter (!l.bodyAfter.contains ·))) ∧
+        (S'.setValues ≠ [] → collectScopeLayers d' =
+            listSet L' idx { applyAllLayer us l with scope := S'.setValues, order := S'.setOrder } ∧
+          d'.tBefore = d.tBefore ∧ d'.tAfter = d.tAfter) ∧
+        d'.target = applyAllNode us d.target ∧ d'.noTarget = d.noTarget ∧ d'.scratch = none) := by
+  simp only [NameAgree.setValue_model_eq_spelled (atSigns k ++ name) _ d hns, NameAgree.removeValue_model_eq_spelled (atSigns k ++ name) d hns] at *
+  exact scoped_rm_layer d k name hn hk hne hh hkn
+
+theorem scoped_rm_prunes_exactly_repaired (d : Doc) (k : Nat) (name : Text) (hn : d.noTarget = none)
+    (hk : 1 ≤ k) (hne : name ≠ []) (hh : name.head? ≠ some '@')
+    (hkn : k ≤ (collectScopeLayers d).length) {l : Layer}
+    (hl : (collectScopeLayers d)[(collectScopeLayers d).length - k]? = some l)
+    (hsep : layerSeparated d ((collectScopeLayers d).length - k) = true)
+    (hok : (@removeValue NameCmp.model (atSigns k ++ name) d).1 = .ok ())
+    (hns : NameAgree.noSpellingClash d (atSigns k ++ name)) :
+    let d' := (@removeValue NameCmp.model (atSigns k ++ name) d).2
+    let idx := (collectScopeLayers d).length - k
+    d'.target = d.target ∧
+    (collectScopeLayers d' = (collectScopeLayers d).eraseIdx idx ∨
+      ((∀ j, j ≠ idx → (collectScopeLayers d')[j]? = (collectScopeLayers d)[j]?) ∧
+       (collectScopeLayers d').length = (collectScopeLayers d).length ∧
+       ∃ l', (collectScopeLayers d')[idx]? = some l' ∧ l'.scope ≠ [] ∧
+         l'.bodyBefore = l.bodyBefore ∧ l'.bodyAfter = l.bodyAfter ∧ l'.afterLet = l.afterLet ∧
+         d'.tBefore = d.tBefore ∧ d'.tAfter = d.tAfter)) := by
+  simp only [NameAgree.setValue_model_eq_spelled (atSigns k ++ name) _ d hns, NameAgree.removeValue_model_eq_spelled (atSigns k ++ name) d hns] at *
+  exact scoped_rm_prunes_exactly d k name hn hk hne hh hkn hl hsep hok
+
+theorem scoped_rm_unbinds_in_layer_repaired (d : Doc) (k : Nat) (name seg : Text)
+    (hn : d.noTarget = none) (hk : 1 ≤ k) (hne : name ≠ []) (hh : name.head? ≠ some '@')
+    (hkn : k ≤ (collectScopeLayers d).length) {l : Layer}
+    (hl : (collectScopeLayers d)[(collectScopeLayers d).length - k]? = some l)
+    (hfmt : formatNPath currentAnchor name = .ok [seg]) (hdist : DistinctItems l.scope = true)
+    (hok : (@removeValue NameCmp.model (atSigns k ++ name) d).1 = .ok ())
+    (hns : NameAgree.noSpellingClash d (atSigns k ++ name)) :
+    ∃ b l₁ l₂, l.scope = l₁ ++ b :: l₂ ∧ b.isBind = true ∧ b.bindName? = some seg ∧
+      (l₁ ++ l₂ ≠ [] →
+        ∃ l', (collectScopeLayers (@removeValue NameCmp.model (atSigns k ++ name) d).2)[
+            (collectScopeLayers d).length - k]? = some l' ∧ l'.scope = l₁ ++ l₂ ∧
+          ((keysOf l.scope).count seg ≤ 1 → findBinding l'.scope seg = none)) ∧
+      (l₁ ++ l₂ = [] →
+        (collectScopeLayers (@removeValue NameCmp.model (atSigns k ++ name) d).2).length =
+          (collectScopeLayers d).length - 1) := by
+  simp only [NameAgree.setValue_model_eq_spelled (atSigns k ++ name) _ d hns, NameAgree.removeValue_model_eq_spelled (atSigns k ++ name) d hns] at *
+  exact scoped_rm_unbinds_in_layer d k name seg hn hk hne hh hkn hl hfmt hdist hok
 
 end Nima.C09
